@@ -256,11 +256,13 @@ def draw_jumps(kind, rng, counts, grid=None, origin=None):
 def single_process_cases(res, rng, tier):
     import numpy as np
     fixed_cases, jump_cases = [], []
-    n_iter = 70 if tier == "quick" else 600
+    n_iter = 110 if tier == "quick" else 800
     for it in range(n_iter):
         kind = "levy" if it % 2 == 0 else "chain"
         mode = ["fixed", "jump", "cap"][it % 3] if it % 7 else "cap"
         n_int = rng.choice([1, 1, 2, 3, 4]) if mode != "fixed" else rng.choice([1, 2, 3, 4])
+        if mode == "cap":
+            n_int = rng.choice([1, 2, 3, 4, 6, 8, 12])      # also MANY product dates
         dt = rng.choice([0.25, 1.0, 1.0, 4.0]) if mode == "fixed" else rng.choice([0.5, 1.0, 2.0])
         T = dt * n_int
         proc, model = build_process(kind, rng)
@@ -268,7 +270,17 @@ def single_process_cases(res, rng, tier):
         eps = None
         if mode == "cap":
             eps = rng.choice([T / 16, T / 8, dt / 4, 3 * dt / 16, T, 2 * T, dt / 2])
+            if n_int >= 2 and rng.random() < 0.6:
+                # product interval <= eps < maturity: the cap must still act on gaps between jumps of different intervals
+                eps = rng.choice([e for e in (dt, 1.25 * dt, 1.5 * dt, 2 * dt, T / 2, 0.75 * T) if dt <= e < T])
         counts, offsets = gen_script(rng, n_int, dt)
+        if mode == "cap" and n_int >= 3 and rng.random() < 0.6:
+            keep = set(rng.sample(range(n_int), rng.choice([1, 2])))     # sparse jumps: long gaps across several product dates
+            counts = [c if k in keep else 0 for k, c in enumerate(counts)]
+            offsets = [o if k in keep else [] for k, o in enumerate(offsets)]
+            for k in keep:
+                if counts[k] == 0:
+                    counts[k], offsets[k] = 1, [dt / 2]
         if it % 11 == 0:
             counts, offsets = [0] * n_int, [[] for _ in range(n_int)]
         ctx = {"kind": "process", "process": kind, "mode": mode, "intervals": n_int, "dt": dt, "T": T, "eps": eps, "counts": counts, "offsets": offsets}
@@ -336,6 +348,7 @@ def single_process_cases(res, rng, tier):
         res.bump("jumps_per_path", sum(counts))
         if eps is not None:
             res.bump("eps_vs_maturity", "eps >= T" if eps >= T else ("inserted points" if len(times) > sum(counts) + 2 else "no insertion"))
+            res.bump("eps_vs_product_interval", "eps >= T" if eps >= T else ("interval <= eps < T" if eps >= dt and n_int > 1 else "eps < interval"))
         res.bump("diffusion_compare", "exact" if exact_sq else "tolerance 1e-12")
     return fixed_cases, jump_cases
 
@@ -354,6 +367,8 @@ def coupled_cases(res, rng, tier):
         dt = rng.choice([0.25, 1.0, 4.0]) if mode == "fixed" else rng.choice([0.5, 1.0, 2.0])
         T = dt * n_int
         eps = rng.choice([T / 8, dt / 4, 3 * dt / 16, T, dt / 2]) if mode == "cap" else None
+        if mode == "cap" and n_int == 2:
+            eps = rng.choice([dt, 1.5 * dt])        # product interval <= eps < maturity
         prod = make_product(n_int + 1, T, stochastic=(mode != "fixed"))
         counts, offsets = gen_script(rng, n_int, dt)
         if mode != "fixed" and n_int == 2:        # the coupled jump-time simulator needs equally many jumps per interval not to raise on ragged arrays
